@@ -138,6 +138,19 @@ impl XmlReader {
     }
 
     fn read_xml_internal(file: &FileContent, file_name: &str, files: &Files) -> WriterResult<RustDocument> {
+        Self::read_xml_file(file, file_name, files, None)
+    }
+
+    /// Read one file. An imported file starts from what its importer already knows (namespaces
+    /// with their abbreviations, components read so far), so that every namespace gets one
+    /// abbreviation and module in the whole output and references into files that were read
+    /// earlier through another import path can be resolved.
+    fn read_xml_file(
+        file: &FileContent,
+        file_name: &str,
+        files: &Files,
+        importer: Option<&RustDocument>,
+    ) -> WriterResult<RustDocument> {
         // mark the file before its imports are followed, so that import cycles and
         // self-imports end here instead of recursing forever
         if file.processed.swap(true, std::sync::atomic::Ordering::SeqCst) {
@@ -148,7 +161,10 @@ impl XmlReader {
         let xml = &file.xml;
         let doc = roxmltree::Document::parse(xml)
             .map_err(|e| WriterError::new(format!("Unable to parse file {file_name}: {e}")))?;
-        let mut rust_doc = RustDocument::init(&doc);
+        let mut rust_doc = match importer {
+            Some(importer) => RustDocument::init_imported(&doc, importer),
+            None => RustDocument::init(&doc),
+        };
 
         for child in doc.root().children() {
             Self::read(child, files, &mut rust_doc)?;
@@ -227,7 +243,8 @@ impl XmlReader {
     fn read_xsd<'n>(node: Node<'n, 'n>, files: &Files, doc: &mut RustDocument) -> WriterResult<()> {
         for child in node.children() {
             if child.tag_name().name() == "import" {
-                doc.extend(Self::process_import(child, files)?);
+                let imported = Self::process_import(child, files, doc)?;
+                doc.extend(imported);
                 continue;
             }
 
@@ -239,7 +256,7 @@ impl XmlReader {
         Ok(())
     }
 
-    fn process_import(node: Node, files: &Files) -> WriterResult<RustDocument> {
+    fn process_import(node: Node, files: &Files, importer: &RustDocument) -> WriterResult<RustDocument> {
         let namespace = node.attribute("namespace").ok_or(WriterError::NamespaceMissing)?;
 
         if WELL_KNOWN_NAMESPACES.contains(&namespace) {
@@ -259,7 +276,7 @@ impl XmlReader {
             return Ok(RustDocument::empty());
         }
 
-        let rust_doc = Self::read_xml_internal(file, schema_location, files)?;
+        let rust_doc = Self::read_xml_file(file, schema_location, files, Some(importer))?;
         Ok(rust_doc)
     }
 }
